@@ -451,7 +451,7 @@ def check(prop, tier, seed):
                 return
             # inconclusive: re-run that single case alone with a larger budget
             r2 = run_part(h, tier, seed, res['part'], res['nparts'], rundir, only=witness['idx'],
-                          attempt=res['attempt'] + 100, alarm=(h.alarm or 120) * 5)
+                          attempt=res['attempt'] + 100, alarm=(h.alarm or 60) * 3)
             handle(r2, depth=100)
             if depth < 10 and not after_stats:
                 r3 = run_part(h, tier, seed, res['part'], res['nparts'], rundir, frm=witness['idx'] + 1,
